@@ -38,6 +38,9 @@ def annotF : Nat → Mode → Spec → List (Nat × Mode)
     | .switch cases d => cases.flatMap (fun e => a m e.1 ++ a m e.2) ++ (optSpecs d).flatMap (a m)
     | .iter s _ => a m s                -- a lazy stream: the mode of the site where it is *written*
     | .inspect s _ _ => a m s
+    | .rprobe _ s => a m s
+    | .reqKey s => a m s
+    | .reenter _ s => a m s
     | _ => []
 
 /-- no `Ref(name)` use: its spec comes from the scope, so its mode is that of the use site -/
@@ -55,7 +58,7 @@ def noRefF : Nat → Spec → Bool
     | .coalesce subs d _ _ _ => subs.all n && (optSpecs d).all n
     | .call f as kw => n f && n as && n kw
     | .invoke f _ blocks => n f && blocks.all (fun b => b.2.1.all n && b.2.2.all (fun kv => n kv.2))
-    | .auto s | .fill s | .group s | .not s | .iter s _ | .inspect s _ _ => n s
+    | .auto s | .fill s | .group s | .not s | .iter s _ | .inspect s _ _ | .rprobe _ s | .reqKey s | .reenter _ s => n s
     | .mtch s d => n s && (optSpecs d).all n
     | .and cs d | .or cs d => cs.all n && (optSpecs d).all n
     | .switch cases d => cases.all (fun e => n e.1 && n e.2) && (optSpecs d).all n
@@ -76,7 +79,7 @@ def hasIterF : Nat → Spec → Bool
     | .coalesce subs d _ _ _ => subs.any h || (optSpecs d).any h
     | .call f as kw => h f || h as || h kw
     | .invoke f _ blocks => h f || blocks.any (fun b => b.2.1.any h || b.2.2.any (fun kv => h kv.2))
-    | .auto s | .fill s | .group s | .not s | .inspect s _ _ => h s
+    | .auto s | .fill s | .group s | .not s | .inspect s _ _ | .rprobe _ s | .reqKey s | .reenter _ s => h s
     | .mtch s d => h s || (optSpecs d).any h
     | .and cs d | .or cs d => cs.any h || (optSpecs d).any h
     | .switch cases d => cases.any (fun e => h e.1 || h e.2) || (optSpecs d).any h
@@ -113,7 +116,7 @@ def modeSensitiveF : Nat → Mode → Bool → Spec → Bool
     | .pipe xs => xs.any (h m false)
     | .sBind bs => bs.any (fun b => h m true b.2)
     | .letB bs => bs.any (fun b => h m false b.2)
-    | .specW x _ | .not x | .iter x _ | .inspect x _ _ => h m false x
+    | .specW x _ | .not x | .iter x _ | .inspect x _ _ | .rprobe _ x | .reqKey x | .reenter _ x => h m false x
     | .coalesce subs d _ _ _ => subs.any (h m false) || (optSpecs d).any (h m true)
     | .call f as kw => h m true f || h m true as || h m true kw
     | .invoke f _ blocks =>
